@@ -5,7 +5,7 @@ none of it."""
 import threading
 from pyvc.contract import *
 
-FORMS = ["kw X", "kw NEW", "other X", "overlay X", "mask X", "mask-overlay X"]
+FORMS = ["kw X", "kw NEW", "other X", "overlay X", "mask X", "mask-overlay X", "both X"]
 
 
 def scopes(tier, seed):
@@ -32,6 +32,8 @@ def scopes(tier, seed):
         name = form.split()[1]
         if form.startswith("kw"):
             return env.swap(**{name: "k%d" % i})
+        if form.startswith("both"):
+            return env.swap({name: "o%d" % i}, **{name: "b%d" % i})   # the same variable in `other` AND as a keyword
         if form.startswith("other"):
             return env.swap({name: "o%d" % i})
         if form.startswith("overlay"):
